@@ -296,6 +296,8 @@ SYMX_UN(floor, FLOOR, std::floor(x.v))
 #undef SYMX_UN
 inline Sym atan2 (const Sym& s, const Sym& c) { return sym_bin (symx::ATAN2, s, c, std::atan2 (s.v, c.v)); }
 inline Sym copysign (const Sym& a, const Sym& b) { return sym_bin (symx::COPYSIGN, a, b, std::copysign (a.v, b.v)); }
+// hypot is the real function sqrt (x^2 + y^2) (libm evaluates it without intermediate over/underflow)
+inline Sym hypot (const Sym& a, const Sym& b) { Sym r = ::sqrt (a * a + b * b); r.v = std::hypot (a.v, b.v); return r; }
 inline int isinf (const Sym& x) { return std::isinf (x.v); }
 inline int isnan (const Sym& x) { return std::isnan (x.v); }
 
@@ -314,6 +316,7 @@ namespace std {
   inline Sym abs (const Sym& x) { return ::fabs(x); }
   inline Sym atan2 (const Sym& s, const Sym& c) { return ::atan2(s,c); }
   inline Sym copysign (const Sym& s, const Sym& c) { return ::copysign(s,c); }
+  inline Sym hypot (const Sym& a, const Sym& b) { return ::hypot(a,b); }
   inline bool isfinite (const Sym& x) { return std::isfinite (x.v); }
   inline bool isnan (const Sym& x) { return std::isnan (x.v); }
   inline bool isinf (const Sym& x) { return std::isinf (x.v); }
